@@ -21,6 +21,8 @@ pub enum R {
     Fixed(&'static [u8]),
     /// query echoing its u8 parameter as NR1
     EchoU8,
+    /// query answering a string of as many `r` as its u8 parameter says
+    RepeatR,
     /// returns this error
     Err(i16, &'static str),
 }
@@ -304,6 +306,13 @@ pub fn unit_effect(iface: &Iface, prefix: &mut Option<Prefix>, u: &Unit) -> Effe
             let LitKind::Int(v) = u.args[0].kind else { unreachable!() };
             let mut out = v.to_string().into_bytes();
             out.push(b'\n');
+            Effect { call: Some(call), out, err: None, fault: None }
+        }
+        R::RepeatR => {
+            let LitKind::Int(v) = u.args[0].kind else { unreachable!() };
+            let mut out = vec![b'"'];
+            out.extend(std::iter::repeat(b'r').take(v as usize));
+            out.extend_from_slice(b"\"\n");
             Effect { call: Some(call), out, err: None, fault: None }
         }
         R::Err(n, t) => Effect {
